@@ -9,7 +9,7 @@ import ast
 import binascii
 import struct
 
-from .absval import (UNK, Unknown, ABytes, AObj, AFunc, AClass, AMod, ABuiltin,
+from .absval import (UNK, Unknown, ABytes, AObj, AFunc, AClass, AMod, ABuiltin, ADeque,
                      AExc, AFfi, is_unk, is_concrete, same, join, truth,
                      type_name)
 
@@ -440,6 +440,16 @@ def call_method(interp, base, attr, args, kwargs, st, node):
             return None
         return UNK
     # list -----------------------------------------------------------------
+    if isinstance(base, ADeque) and attr in ("popleft", "appendleft"):
+        if attr == "popleft" and not args:
+            if not base:
+                interp._diverged = interp.do_raise("IndexError", st, node)
+                return UNK
+            return base.pop(0)
+        if attr == "appendleft" and len(args) == 1:
+            base.insert(0, args[0])
+            return None
+        return UNK
     if isinstance(base, list):
         if attr == "append" and len(args) == 1:
             base.append(args[0])
@@ -1149,6 +1159,7 @@ EXT_MODELS = {
     "callable": m_unknown("bool"), "id": m_unknown("int"),
     "repr": m_unknown("str"), "super": m_super,
     "struct.pack": m_struct_pack, "struct.unpack": m_struct_unpack,
+    "collections.deque": lambda i, a, k, s, n: ADeque(a[0]) if (len(a) == 1 and isinstance(a[0], (list, tuple)) and not k) else (ADeque() if not a and not k else UNK),
     "re.compile": _re_compile, "re.match": _re_func("match"), "re.search": _re_func("search"), "re.fullmatch": _re_func("fullmatch"),
     "struct.calcsize": lambda i, a, k, s, n: struct.calcsize(a[0]) if a and isinstance(a[0], str) else Unknown("int"),
     "binascii.unhexlify": m_unhexlify, "binascii.hexlify": m_hexlify,
